@@ -331,6 +331,15 @@ Definition pc_reloading (p : pc) : bool :=
   end.
 Definition reload_inflight (s : state) : bool := any_thread s (fun th => pc_reloading (th_pc th)).
 
+(** the reloadable cell is an [Arc] of its own: the reload handle holds a [Weak] to it, the collector a strong reference,
+    and a reload in flight holds the upgraded [Arc] (the local `inner` of Handle::modify) until it returns *)
+Definition pc_cell (p : pc) : option cid :=
+  match p with
+  | PRlLock c _ | PRlAssign c _ | PRlUnlock c _ | PRlGap c _ => Some c
+  | _ => match pc_kind p with Some (KReload c _) => Some c | _ => None end
+  end.
+Definition cell_live (s : state) (c : cid) : bool := live s c || any_thread s (fun th => oeqb (pc_cell (th_pc th)) c).
+
 (** ghost: the values of c's cell that may still be reflected in cached verdicts: the current one and those
     replaced by a reload whose assignment has not yet been followed by a complete rebuild pass *)
 Definition inplay (s : state) (c : cid) : list fid := st_cell s c :: map snd (st_olds s c ++ st_cleaning s c).
@@ -382,8 +391,8 @@ Definition start_op (W : world) (s : state) (t : tid) (o : op) : state :=
   | ORebuild => goto t (PWrLock KRebuild) s
   | OReload c f =>
       if st_created s c then
-        (* self.inner.upgrade() *)
-        if live s c then goto t (PRlLock c f) (set_epoch (S (st_epoch s)) s)
+        (* self.inner.upgrade(): the cell's own Arc *)
+        if cell_live s c then goto t (PRlLock c f) (set_epoch (S (st_epoch s)) s)
         else emit_log (EvReload t c f false) s
       else s
   end.
